@@ -38,7 +38,7 @@ theorem mem_rel_modify {d : Disk} {n jn : Nat} {f : LogFile Grp → LogFile Grp}
 /-- one more group at the end of journal `n`, the newest journal; the group is newer than everything
     relevant -/
 theorem DiskOK.journal_append {cfg : Cfg} {d : Disk} {must must' issued issued' : List Grp}
-    (h : DiskOK cfg d must issued) (n : Nat) (g : Grp) (hmax : ∀ p ∈ d.journals, p.1 ≤ n)
+    (h : DiskOK cfg d must issued) (n : Nat) (g : Grp) (hmax : ∀ p ∈ d.journals, p.1 ≤ n ∨ p.2.all = [])
     (hg : g ∈ issued' ∧ g.recs ≠ [])
     (hview : ∀ mf, curManifest d = some mf → ∀ k ≤ mf.unsynced.length, ∀ v, viewAt cfg mf k = some v →
       v.sq ≤ g.seq ∧ (∀ x ∈ liveGrps d v, x.fin ≤ g.seq) ∧ ∀ p ∈ relJournals d v.jn, ∀ x ∈ p.2.all, x.fin ≤ g.seq)
@@ -66,16 +66,16 @@ theorem DiskOK.journal_append {cfg : Cfg} {d : Disk} {must must' issued issued' 
       split at hx
       · simp only [hall, List.mem_append, List.mem_singleton] at hx
         rcases hx with hx | rfl
-        · obtain ⟨a, b⟩ := hok.jseq p hpr x hx; exact ⟨a, hi x b⟩
-        · exact ⟨hv1, hg.1⟩
-      · obtain ⟨a, b⟩ := hok.jseq p hpr x hx; exact ⟨a, hi x b⟩
+        · obtain ⟨a, b⟩ := hok.jseq p hpr x hx; exact ⟨a.imp id (fun u w => u (hm _ w)), hi x b⟩
+        · exact ⟨Or.inl hv1, hg.1⟩
+      · obtain ⟨a, b⟩ := hok.jseq p hpr x hx; exact ⟨a.imp id (fun u w => u (hm _ w)), hi x b⟩
     · intro x hx q hq y hy
       obtain ⟨p, hpr, rfl⟩ := mem_rel_modify.1 hq
       split at hy
       · simp only [hall, List.mem_append, List.mem_singleton] at hy
         rcases hy with hy | rfl
         · exact hok.tj x hx p hpr y hy
-        · exact hv2 x hx
+        · exact Or.inr (Or.inl (hv2 x hx))
       · exact hok.tj x hx p hpr y hy
     · intro x hx
       rcases hok.cover x (hm x hx) with h1 | ⟨p, hpr, hxp⟩
@@ -99,16 +99,21 @@ theorem DiskOK.journal_append {cfg : Cfg} {d : Disk} {must must' issued issued' 
     have hk1 : (if p.1 = n then (p.1, LogFile.append p.2 g) else p).1 = p.1 := by split <;> rfl
     have hk2 : (if p'.1 = n then (p'.1, LogFile.append p'.2 g) else p').1 = p'.1 := by split <;> rfl
     rw [hk1, hk2] at hlt
-    have hpn : p.1 ≠ n := by
-      have := hmax p' (mem_relJournals.1 hpr').1
-      omega
-    rw [if_neg hpn] at hx
-    split at hy
-    · simp only [hall, List.mem_append, List.mem_singleton] at hy
+    by_cases hpn' : p'.1 = n
+    · have hpn : p.1 ≠ n := by omega
+      rw [if_neg hpn] at hx
+      rw [if_pos hpn'] at hy
+      simp only [hall, List.mem_append, List.mem_singleton] at hy
       rcases hy with hy | rfl
       · exact hp.jord p hpr p' hpr' hlt x hx y hy
       · exact hv3 p hpr x hx
-    · exact hp.jord p hpr p' hpr' hlt x hx y hy
+    · rw [if_neg hpn'] at hy
+      split at hx
+      · rename_i hpn
+        rcases hmax p' (mem_relJournals.1 hpr').1 with h1 | h1
+        · omega
+        · rw [h1] at hy; cases hy
+      · exact hp.jord p hpr p' hpr' hlt x hx y hy
 
 /-- `Sync` of journal `n`: groups of that journal may join the must-survive set if no admissible view
     skips the journal -/
@@ -116,7 +121,8 @@ theorem DiskOK.journal_sync {cfg : Cfg} {d : Disk} {must must' issued issued' : 
     (h : DiskOK cfg d must issued) (n : Nat)
     (hm : ∀ x ∈ must', x ∈ must ∨
       ((∃ p ∈ d.journals, p.1 = n ∧ x ∈ p.2.all) ∧
-        ∀ mf, curManifest d = some mf → ∀ k ≤ mf.unsynced.length, ∀ v, viewAt cfg mf k = some v → v.jn ≤ n))
+        ∀ mf, curManifest d = some mf → ∀ k ≤ mf.unsynced.length, ∀ v, viewAt cfg mf k = some v →
+          v.jn ≤ n ∧ v.sq ≤ x.seq))
     (hi : ∀ x ∈ issued, x ∈ issued') :
     DiskOK cfg { d with journals := d.journals.modify n (·.sync) } must' issued' := by
   obtain ⟨mf, v0, hp⟩ := h.parts
@@ -145,7 +151,13 @@ theorem DiskOK.journal_sync {cfg : Cfg} {d : Disk} {must must' issued issued' : 
     · intro q hq x hx
       obtain ⟨p, hpr, _, e⟩ := hrel _ q hq
       rw [e] at hx
-      obtain ⟨a, b⟩ := hok.jseq p hpr x hx; exact ⟨a, hi x b⟩
+      obtain ⟨a, b⟩ := hok.jseq p hpr x hx
+      refine ⟨?_, hi x b⟩
+      by_cases hxm : x ∈ must'
+      · rcases hm x hxm with hx' | ⟨_, hjn⟩
+        · exact a.imp id (fun u _ => u hx')
+        · exact Or.inl (hjn mf hp.cur k hk v hv).2
+      · exact Or.inr hxm
     · intro x hx q hq y hy
       obtain ⟨p, hpr, _, e⟩ := hrel _ q hq
       rw [e] at hy
@@ -158,7 +170,7 @@ theorem DiskOK.journal_sync {cfg : Cfg} {d : Disk} {must must' issued issued' : 
           split
           · simp only [LogFile.sync, LogFile.all]; exact List.mem_append_left _ hxp
           · exact hxp
-      · have hpr : p ∈ relJournals d v.jn := mem_relJournals.2 ⟨hpj, by rw [hpn]; exact hjn mf hp.cur k hk v hv⟩
+      · have hpr : p ∈ relJournals d v.jn := mem_relJournals.2 ⟨hpj, by rw [hpn]; exact (hjn mf hp.cur k hk v hv).1⟩
         refine Or.inr ⟨_, mem_rel_modify.2 ⟨p, hpr, rfl⟩, ?_⟩
         rw [if_pos hpn]
         exact hxp
@@ -226,6 +238,51 @@ theorem DiskOK.journal_create {cfg : Cfg} {d : Disk} {must issued : List Grp}
       · exact hp.jord q h1 q' h2 hlt x hx y hy
       · simp [hempty] at hy
     · simp [hempty] at hx
+
+theorem set_same {α : Type} {m : Files α} (hn : m.Pairwise (fun p q => p.1 ≠ q.1)) {n : Nat} {a : α}
+    (h : (n, a) ∈ m) : m.set n a = m := by
+  induction m with
+  | nil => cases h
+  | cons p ps ih =>
+    obtain ⟨k, b⟩ := p
+    rw [List.pairwise_cons] at hn
+    simp only [Files.set]
+    by_cases hk : k = n
+    · rw [if_pos hk]
+      rcases List.mem_cons.1 h with h1 | h1
+      · rw [h1]
+      · exact absurd hk (hn.1 _ h1)
+    · rw [if_neg hk]
+      rcases List.mem_cons.1 h with h1 | h1
+      · cases h1; exact absurd rfl hk
+      · rw [ih hn.2 h1]
+
+theorem logFile_of_all_nil {ρ : Type} {jf : LogFile ρ} (h : jf.all = []) : jf = ⟨[], []⟩ := by
+  obtain ⟨a, b⟩ := jf
+  simp only [LogFile.all, List.append_eq_nil_iff] at h
+  obtain ⟨rfl, rfl⟩ := h
+  rfl
+
+/-- `Create` of journal `n`: a new, empty journal with the largest number, or the truncation of the empty
+    journal a failed `Create` left behind -/
+theorem DiskOK.journal_create' {cfg : Cfg} {d : Disk} {must issued : List Grp}
+    (h : DiskOK cfg d must issued) (n : Nat) (hn : ∀ p ∈ d.journals, p.1 < n ∨ p.1 = n ∧ p.2.all = []) :
+    DiskOK cfg { d with journals := d.journals.set n ⟨[], []⟩ } must issued := by
+  by_cases hex : ∃ p ∈ d.journals, p.1 = n
+  · obtain ⟨p, hp, hpn⟩ := hex
+    have hall : p.2.all = [] := by
+      rcases hn p hp with h1 | h1
+      · omega
+      · exact h1.2
+    have hp' : (n, (⟨[], []⟩ : LogFile Grp)) ∈ d.journals := by
+      rw [← hpn, ← logFile_of_all_nil hall]; exact hp
+    rw [set_same (sorted_nodup h.jsorted) hp']
+    exact h
+  · apply DiskOK.journal_create h n
+    intro p hp
+    rcases hn p hp with h1 | h1
+    · exact h1
+    · exact absurd ⟨p, hp, h1.1⟩ hex
 
 /-- removal of a journal no admissible view replays, or of an empty one -/
 theorem DiskOK.journal_remove {cfg : Cfg} {d : Disk} {must issued : List Grp}
